@@ -34,8 +34,8 @@ RULE = (
 )
 ASSUMPTIONS = ["enforce_content_length is left at its default", "truncated gzip/deflate streams are decodable prefixes: the statement demands an error only for zstd (incomplete) and undecodable streams"]
 REQUIRED_PROBES = {
-    "quick": ["must_raise:cl", "must_raise:chunked", "must_raise:zstd_incomplete", "must_raise:corrupt_size_line", "must_raise:undecodable", "either_zone", "carrier_closed", "second_on_other_socket", "fin:data", "fin:read1_none_loop", "fin:stream"],
-    "thorough": ["must_raise:cl", "must_raise:chunked", "must_raise:zstd_incomplete", "must_raise:corrupt_size_line", "must_raise:undecodable", "either_zone", "carrier_closed", "second_on_other_socket", "fin:data", "fin:read1_none_loop", "fin:stream"],
+    "quick": ["must_raise:cl", "must_raise:chunked", "must_raise:zstd_incomplete", "must_raise:corrupt_size_line", "must_raise:undecodable", "either_zone", "carrier_closed", "second_on_other_socket", "fin:data", "fin:read1_none_loop", "fin:stream", "late_tail_after_corruption"],
+    "thorough": ["must_raise:cl", "must_raise:chunked", "must_raise:zstd_incomplete", "must_raise:corrupt_size_line", "must_raise:undecodable", "either_zone", "carrier_closed", "second_on_other_socket", "fin:data", "fin:read1_none_loop", "fin:stream", "late_tail_after_corruption"],
 }
 
 
@@ -80,6 +80,13 @@ def cases(seed, k, tier):
             sc = copy.deepcopy(base)
             sc["fault"] = {"kind": "corrupt", "at": rng.randrange(body_lo, len(wire)), "xor": rng.choice([1, 0x80, 0xFF]), "where": "coded"}
             yield sc
+            if sc["fault"]["at"] + 2 < len(wire):
+                # the same corruption, but the rest of the response is still on its way when the damaged part is decoded: a
+                # reader that gives up early must not leave that tail to whoever uses the connection next
+                sc2 = copy.deepcopy(sc)
+                sc2["fault"]["tail_after"] = rng.randrange(sc["fault"]["at"] + 1, len(wire))
+                sc2["fault"]["tail_delay"] = rng.choice([0.5, 3.0])
+                yield sc2
         full = built["full_coded_len"]
         for keep in sorted(set([0, 1, full // 2, max(full - 1, 0), max(full - 4, 0)])):
             if keep < full:
@@ -298,7 +305,11 @@ def run(sc: dict) -> Result:
             e = end
             if e == "keep_then_eof":
                 e = "keep"
-            return {"k": "raw", "bytes": data, "end": e if e else "keep"}
+            spec = {"k": "raw", "bytes": data, "end": e if e else "keep"}
+            if sc["fault"].get("tail_after") is not None and 0 < sc["fault"]["tail_after"] < len(data):
+                spec["split"] = [sc["fault"]["tail_after"], sc["fault"]["tail_delay"]]
+                res.probes["late_tail_after_corruption"] += 1
+            return spec
         return {"k": "resp", "status": 200, "body": "second"}
 
     w.responder = responder
@@ -347,6 +358,10 @@ def run(sc: dict) -> Result:
                         res.bad("carrier_reused", f"second request failed on the dirty carrier: {type(e).__name__}: {e!s:.100}")
                     else:
                         res.probes["second_failed:" + type(e).__name__] += 1
+                # whatever the label: a second request must never be written onto the carrier while bytes of the first response are
+                # still outstanding on it (arrived or in flight)
+                if carrier is not None and carrier.tags.get("wrote_with_inbound_outstanding") and any(q.sid == carrier.sid and q.target == "/second" for q in w.requests):
+                    res.bad("carrier_reused", f"the second request was written onto socket {carrier.sid} while the rest of the {label} response was still outstanding on it")
                 if carrier is not None and err is not None and framing_broken:
                     if not carrier.really_closed:
                         res.bad("carrier_left_open", f"socket {carrier.sid} still open after the error")
